@@ -25,19 +25,29 @@ type (
 )
 
 func (ds *dataStore) save(fileName string) (err error) {
-	// open output file
-	f, err := os.Create(fileName)
+	// write a temporary file and move it over the final name only when it is complete and closed,
+	// so that a save interrupted at any point leaves the previous snapshot in place
+	tmpName := fileName + ".tmp"
+	f, err := os.Create(tmpName)
 	if err != nil {
 		return
 	}
 
-	// close f on exit and check for its returned error
-	defer func() {
-		if err := f.Close(); err != nil {
-			panic(err)
-		}
-	}()
+	if err = ds.writeSnapshot(f); err != nil {
+		f.Close()
+		os.Remove(tmpName)
+		return
+	}
 
+	if err = f.Close(); err != nil {
+		os.Remove(tmpName)
+		return
+	}
+
+	return os.Rename(tmpName, fileName)
+}
+
+func (ds *dataStore) writeSnapshot(f *os.File) (err error) {
 	enc := gob.NewEncoder(f)
 
 	// write the header
